@@ -1070,11 +1070,14 @@ class MutableFileVersion:
         after downloading it, then reuploading it. I am less efficient
         than _do_update_update, but am necessary for certain updates.
         """
+        # the modifier may run more than once (it is retried after an
+        # UncoordinatedWriteError), but the uploadable can only be read once
+        new_data = b"".join(data.read(data.get_size()))
         def m(old, servermap, first_time):
             start = offset
-            rest = offset + data.get_size()
+            rest = offset + len(new_data)
             new = old[:start]
-            new += b"".join(data.read(data.get_size()))
+            new += new_data
             new += old[rest:]
             return new
         return self._modify(m, None)
